@@ -170,6 +170,7 @@ def finish(report: Report, tier: str, t0: float, collect: str | None = None) -> 
         json.dump(
             [dataclasses.asdict(f) for f in unknown], open(collect, "w"), indent=1, ensure_ascii=False
         )
+        json.dump({"property": report.prop, "observed": sorted(f.sig for fs in by_finding.values() for f in fs)}, open(collect + ".observed", "w"), ensure_ascii=False)
         print(f"collected {len(unknown)} unlisted failures into {collect}")
     shown = 0
     for f in unknown:
